@@ -2386,6 +2386,12 @@ TRICKY = [
     ("abstractions.overused_constant", "constant-in-default-and-decorator", 'def deco(text):\n    return lambda f: f\n\n\n@deco("a fairly long constant text")\ndef main(v, t="a fairly long constant text"):\n    return [t, "a fairly long constant text", "a fairly long constant text", "a fairly long constant text", v]\n\n\nprint(main(inp()))\n'),
     ("fixes.fix_line_lengths", "long-line-in-nested-block", 'def main(v):\n    if v > -9:\n        for i in range(1):\n            result = {"alpha": v + 1000000, "beta": v + 2000000, "gamma": v + 3000000, "delta": v + 4000000, "epsilon": v}\n    return result\n\n\nprint(main(inp()))\n'),
     ("fixes.fix_line_lengths", "long-elif-and-lambda", 'def main(v):\n    f = lambda aaaaaaaaaaaa, bbbbbbbbbbbbbb, cccccccccccccc, dddddddddddddd: aaaaaaaaaaaa + bbbbbbbbbbbbbb + cccccccccccccc + dddddddddddddd\n    if v > 100000000000 and v < 200000000000 and v != 150000000000 and v != 160000000000 and v != 170000000000:\n        return 1\n    elif v > 300000000000 and v < 400000000000 and v != 350000000000 and v != 360000000000 and v != 370000000000:\n        return 2\n    return f(v, 1, 2, 3)\n\n\nprint(main(inp()))\n'),
+    ("fixes.implicit_dict_keys_values_items", "store-only-keys-loop-subscript", 'def main(tables, n):\n    for k in tables[n**2].keys():\n        tables[n**2][k] += 1\n    return tables\n\n\nprint(main({4: {1: inp()}}, 2))\n'),
+    ("fixes.implicit_dict_keys_values_items", "store-only-keys-loop-assign", 'def main(tables, n):\n    for k in tables[n**2].keys():\n        tables[n**2][k] = 0\n    return tables\n\n\nprint(main({4: {1: inp()}}, 2))\n'),
+    ("fixes.implicit_dict_keys_values_items", "store-only-keys-loop-slice", 'def main(rows, i):\n    for k in rows[i + 1 :][0].keys():\n        rows[i + 1 :][0][k] += 1\n    return rows\n\n\nprint(main([{}, {1: inp()}], 0))\n'),
+    ("fixes.implicit_dict_keys_values_items", "store-only-keys-loop-del", 'def main(d):\n    for k in list(d.keys()):\n        del d[k]\n    for k in d.keys():\n        d[k] += 1\n    return d\n\n\nprint(main({1: inp()}))\n'),
+    ("fixes.implicit_dict_keys_values_items", "keys-loop-read-and-store", 'def main(tables, n):\n    for k in tables[n**2].keys():\n        tables[n**2][k] = tables[n**2][k] + 1\n    return tables\n\n\nprint(main({4: {1: inp()}}, 2))\n'),
+    ("fixes.implicit_dict_keys_values_items", "items-loop-unused-value", 'def main(tables, n):\n    out = []\n    for k, _ in tables[n**2].items():\n        out.append(k)\n    for _, v in tables[n**2].items():\n        out.append(v)\n    return out\n\n\nprint(main({4: {1: inp()}}, 2))\n'),
     ("fixes.deinterpolate_logging_args", "nested-format-spec", 'import logging\n\n\ndef main(v, w):\n    logging.debug(f"{v:>{w}}")\n    logging.log(10, f"{v:{w}.{w}f}")\n    logging.debug(f"{v:}")\n    logging.debug(f"{v!r:>10} {{literal}}")\n    return v\n\n\nprint(main(inp(), 3))\n'),
 ]
 
